@@ -104,7 +104,7 @@ Print Assumptions C10_clear_form.
 
 Example C10_clear_form_nonvacuous :
   pack_bin toy_conv N toy_seal (Some [9; 9; 9]) [[5]] 77 [1; 2; 3]
-  = [1; 0; 1; 0; 0; 0; 0; 0; 0] ++ [0; 0; 0; 0; 0; 0; 0; 21]
+  = [1; 0; 1; 0; 0; 0; 0; 0; 0] ++ [0; 0; 0; 0; 0; 0; 0; 17]
     ++ toy_seal [[5]] 77 ([0; 0; 0; 6; 0; 1; 3; 9; 9; 9] ++ [1; 2; 3])
   /\ pack_bin toy_conv N toy_seal (Some [9; 9; 9]) [] 77 [1; 2; 3]
      = [1; 0; 0; 0; 1; 0; 0; 0; 4] ++ [3; 9; 9; 9] ++ [0; 0; 0; 0; 0; 0; 0; 3; 1; 2; 3].
